@@ -172,7 +172,8 @@ struct QSpec {
     for (int j = i + 1; j < s.n; ++j) s.v[j - 1] = s.v[j];
     s.n--;
   }
-  bool apply(State& s, const Op& o) const {
+  int alternatives(const Op&) const { return 1; }
+  bool apply(State& s, const Op& o, int = 0) const {
     if (o.kind == K_PUSH) {
       if (o.ok) {
         if (s.n >= 96) return false;
